@@ -40,7 +40,7 @@ try:
     meta['ran'].append(f'cargo test --workspace --no-fail-fast --offline (fresh worktree of /repo HEAD + patch): {passed} passed, {failed} failed')
     shutil.rmtree(tmp + '/target', ignore_errors=True)
     fired = {}
-    e3 = dict(os.environ, VERIF_REPO=wt, VERIF_NO_EVIDENCE='1')
+    e3 = dict(os.environ, VERIF_REPO=wt, VERIF_NO_EVIDENCE='1', VERIF_CACHE='/var/tmp/nuverif-selftest-cache')
     for p in props:
         t0 = time.time()
         q = subprocess.run(['python3', '/verif/tools/nv.py', 'check', p], capture_output=True, text=True, env=e3, cwd='/verif')
